@@ -735,25 +735,50 @@ class MPSBackendImpl:
             _verif.emit("mps_permute", permute=bool(permute), perm=self.qubit_permutation)
         if permute:
             inv_perm = optimat.inv_permutation(self.qubit_permutation)
-            permute_bitstrings(results, inv_perm)
-            permute_occupations_and_correlations(results, inv_perm)
+
+            # an observable may store its result under a suffixed tag
+            # (e.g. Occupation(tag_suffix="x") -> "occupation_x")
+            def tags_of(*base_tags: str) -> list[str]:
+                return list(
+                    dict.fromkeys(
+                        obs.tag
+                        for obs in self.config.observables
+                        if obs._base_tag in base_tags
+                    )
+                )
+
+            permute_bitstrings(results, inv_perm, tags=tags_of("bitstrings"))
+            permute_occupations_and_correlations(
+                results, inv_perm, tags=tags_of("occupation", "correlation_matrix")
+            )
             permute_atom_order(results, inv_perm)
         return results
 
 
-def permute_bitstrings(results: Results, perm: torch.Tensor) -> None:
-    if "bitstrings" not in results.get_result_tags():
-        return
-    uuid_bs = results._find_uuid("bitstrings")
+def permute_bitstrings(
+    results: Results,
+    perm: torch.Tensor,
+    tags: typing.Sequence[str] = ("bitstrings",),
+) -> None:
+    for tag in tags:
+        if tag not in results.get_result_tags():
+            continue
+        uuid_bs = results._find_uuid(tag)
 
-    results._results[uuid_bs] = [
-        Counter({optimat.permute_string(bstr, perm): c for bstr, c in bs_counter.items()})
-        for bs_counter in results._results[uuid_bs]
-    ]
+        results._results[uuid_bs] = [
+            Counter(
+                {optimat.permute_string(bstr, perm): c for bstr, c in bs_counter.items()}
+            )
+            for bs_counter in results._results[uuid_bs]
+        ]
 
 
-def permute_occupations_and_correlations(results: Results, perm: torch.Tensor) -> None:
-    for corr in ["occupation", "correlation_matrix"]:
+def permute_occupations_and_correlations(
+    results: Results,
+    perm: torch.Tensor,
+    tags: typing.Sequence[str] = ("occupation", "correlation_matrix"),
+) -> None:
+    for corr in tags:
         if corr not in results.get_result_tags():
             continue
 
